@@ -1,3 +1,133 @@
-//! C21 placeholder (filled in next)
-use crate::util::*; use crate::Ctx;
-pub fn run(_ctx: &mut Ctx) -> Report { Report::new("C21", "") }
+//! C21 — unsupported interpreter versions: version grid x envelope shapes; implementation vs the model
+//! of `parse_data` (on the real envelope bytes) and a direct oracle using the `semver` crate.
+use crate::host::*;
+use crate::mp;
+use crate::props::common::*;
+use crate::util::*;
+use crate::Ctx;
+use air_interpreter_data::{InterpreterData, InterpreterDataEnvelope};
+use air_interpreter_interface::CallResults;
+use serde_json::json;
+
+#[derive(Clone, Debug)]
+enum Shape { Normal, Reordered, ExtraKey, DupVersion, MissingInner, InnerAsStr, InnerAsArr, Trailing, NotAMap, VersionAsInt, MissingDataVersion }
+
+fn envelope(data_version: &str, interp: &str, inner: &[u8], shape: &Shape) -> Vec<u8> {
+    let mut o = vec![];
+    let kv_ver = |o: &mut Vec<u8>| { mp::str_(o, b"version"); mp::str_(o, data_version.as_bytes()); };
+    let kv_int = |o: &mut Vec<u8>| { mp::str_(o, b"interpreter_version"); mp::str_(o, interp.as_bytes()); };
+    let kv_inner = |o: &mut Vec<u8>| { mp::str_(o, b"inner_data"); mp::bin(o, inner); };
+    match shape {
+        Shape::Normal => { mp::map_header(&mut o, 3); kv_ver(&mut o); kv_int(&mut o); kv_inner(&mut o); }
+        Shape::Reordered => { mp::map_header(&mut o, 3); kv_inner(&mut o); kv_int(&mut o); kv_ver(&mut o); }
+        Shape::ExtraKey => { mp::map_header(&mut o, 4); kv_ver(&mut o); mp::str_(&mut o, b"zzz"); mp::uint(&mut o, 7); kv_int(&mut o); kv_inner(&mut o); }
+        Shape::DupVersion => { mp::map_header(&mut o, 4); kv_ver(&mut o); kv_int(&mut o); kv_int(&mut o); kv_inner(&mut o); }
+        Shape::MissingInner => { mp::map_header(&mut o, 2); kv_ver(&mut o); kv_int(&mut o); }
+        Shape::MissingDataVersion => { mp::map_header(&mut o, 2); kv_int(&mut o); kv_inner(&mut o); }
+        Shape::InnerAsStr => { mp::map_header(&mut o, 3); kv_ver(&mut o); kv_int(&mut o); mp::str_(&mut o, b"inner_data"); mp::str_(&mut o, b"abc"); }
+        Shape::InnerAsArr => { mp::map_header(&mut o, 3); kv_ver(&mut o); kv_int(&mut o); mp::str_(&mut o, b"inner_data"); mp::arr_header(&mut o, 3); mp::uint(&mut o, 1); mp::uint(&mut o, 200); mp::uint(&mut o, 3); }
+        Shape::Trailing => { mp::map_header(&mut o, 3); kv_ver(&mut o); kv_int(&mut o); kv_inner(&mut o); o.extend_from_slice(&[0xc0, 0x01]); }
+        Shape::NotAMap => { mp::arr_header(&mut o, 3); mp::str_(&mut o, data_version.as_bytes()); mp::str_(&mut o, interp.as_bytes()); mp::bin(&mut o, inner); }
+        Shape::VersionAsInt => { mp::map_header(&mut o, 3); kv_ver(&mut o); mp::str_(&mut o, b"interpreter_version"); mp::uint(&mut o, 61); kv_inner(&mut o); }
+    }
+    o
+}
+
+pub fn run(ctx: &mut Ctx, rep: &mut Report) {
+    rep.rule = "case = (interpreter version string, envelope shape, prev kind); versions: grid major{0,1} x minor{60,61,62} x patch{0,1} x pre-release x build variants plus malformed strings; non-trivial = envelope reaches the version check (decodes); distinct by hash of (version, shape, prev kind)".to_string();
+    let mut rng = Rng::new(ctx.seed ^ 0xC21);
+    let a = Peer::new("a");
+    let b = Peer::new("b");
+    let air = format!(r#"(seq (call "{}" ("svc" "f") [] x) (call "{}" ("svc" "g") [x] y))"#, a.id, b.id);
+    let outs_a = run_to_quiescence(&air, &a, &a.id, "pid", &[], &echo_service, 8);
+    let data_a = outs_a.last().unwrap().data.clone();
+    if outs_a[0].ret_code != 0 || data_a.is_empty() {
+        // the very first honest run (empty prev, empty current data) failed: empty data is not accepted
+        rep.case("setup", true, || json!({"setup": "first run with empty data"}));
+        rep.oracle_fail(json!({"why": "a run with empty previous and empty current data fails: empty current data is not treated as empty data",
+                               "air": air, "outcome": outcome_brief(&outs_a[0])}));
+        return;
+    }
+    let env_a = InterpreterDataEnvelope::try_from_slice(&data_a).unwrap();
+    let inner_a: Vec<u8> = env_a.inner_data.to_vec();
+    let data_version = env_a.versions.data_version.to_string();
+    let empty_inner = InterpreterData::default().serialize().unwrap();
+    let min = air::min_supported_version().clone();
+    let unsupported_code = 1 + 5; // position of UnsupportedInterpreterVersion is checked by the model through the generated table
+
+    let mut versions: Vec<String> = vec![];
+    for major in [0u64, 1] { for minor in [60u64, 61, 62] { for patch in [0u64, 1] {
+        for pre in ["", "-rc.1", "-0", "-alpha", "-1.2", "-a-b.0"] { for build in ["", "+b1", "+001", "+0"] {
+            versions.push(format!("{major}.{minor}.{patch}{pre}{build}"));
+        }}
+    }}}
+    for bad in ["0.61", "0.61.0-", "00.61.0", "0.61.0-01", "v0.61.0", "0.61.0+", "0.61.0-a..b", "0.61.0 ", "", "18446744073709551616.0.0",
+                "0.18446744073709551615.0", "0.61.0-é", "0.61.0.1", "0.61.0-rc_1", "0.061.0", "0.61.0+b+c", "0.60.99999999999999999999"] {
+        versions.push(bad.to_string());
+    }
+    if !ctx.thorough {
+        // quick: every grid triple with a random subset of tags, all malformed ones
+        let keep: Vec<String> = versions.iter().filter(|v| !v.contains('-') && !v.contains('+') || rng.chance(1, 3)).cloned().collect();
+        versions = keep;
+    }
+    let shapes = [Shape::Normal, Shape::Reordered, Shape::ExtraKey, Shape::DupVersion, Shape::MissingInner, Shape::InnerAsStr, Shape::InnerAsArr,
+                  Shape::Trailing, Shape::NotAMap, Shape::VersionAsInt, Shape::MissingDataVersion];
+    let results = CallResults::new();
+    // baseline for "empty current data is empty data"
+    let run_b = |prev: &[u8], cur: &[u8]| crate::host::run(&RunArgs { air: &air, prev, cur, init_peer_id: &a.id, peer: &b, particle_id: "pid", timestamp: 1, ttl: 1, results: &results, limits: Limits::unlimited() });
+    let default_env = envelope(&data_version, &min.to_string(), &empty_inner, &Shape::Normal);
+    for prev in [vec![], data_a.clone()] {
+        let o_empty = run_b(&prev, &[]);
+        let o_default = run_b(&prev, &default_env);
+        rep.case(&format!("empty|{}", prev.len()), true, || json!({"cur": "empty", "prev_len": prev.len(), "ret_code": o_empty.ret_code}));
+        if o_empty.ret_code != o_default.ret_code || !same_data(&o_empty.data, &o_default.data) || o_empty.ret_code == unsupported_code {
+            rep.oracle_fail(json!({"why": "empty current data is not treated as the empty data of a supported version", "prev_hex": hex(&prev),
+                                   "with_empty": outcome_brief(&o_empty), "with_default_envelope": outcome_brief(&o_default)}));
+        }
+    }
+    for v in &versions {
+        let shape_list: Vec<Shape> = if ctx.thorough { shapes.to_vec() } else {
+            let mut s = vec![Shape::Normal]; s.push(shapes[1 + rng.below(shapes.len() - 1)].clone()); s };
+        for shape in &shape_list { for prev_kind in 0..2 {
+            let prev: Vec<u8> = if prev_kind == 0 { vec![] } else { data_a.clone() };
+            let inner: &[u8] = if rng.chance(1, 5) { &[1, 2, 3] } else { &inner_a };
+            let cur = envelope(&data_version, v, inner, shape);
+            let o = run_b(&prev, &cur);
+            let real_env = InterpreterDataEnvelope::try_from_slice(&cur).ok();
+            let reaches = real_env.is_some();
+            rep.case(&format!("{v}|{shape:?}|{prev_kind}|{}", inner.len()), reaches, || json!({"version": v, "shape": format!("{shape:?}"), "prev_len": prev.len(), "cur_hex": hex(&cur), "outcome": outcome_brief(&o)}));
+            rep.stat(&format!("code_{}", o.ret_code));
+            // model
+            let mut inner_ok = vec![json!({"hex": hex(&empty_inner), "ok": true}), json!({"hex": hex(&inner_a), "ok": true})];
+            for raw in [&prev, &cur] {
+                if let Ok(e) = InterpreterDataEnvelope::try_from_slice(raw) {
+                    inner_ok.push(json!({"hex": hex(&e.inner_data), "ok": InterpreterData::try_from_slice(&e.inner_data).is_ok()}));
+                }
+            }
+            let req = json!({"op": "parse_data", "prev": hex(&prev), "cur": hex(&cur), "empty_inner": hex(&empty_inner), "inner_ok": inner_ok});
+            let m = ctx.driver.ask(&req);
+            rep.model_compared += 1;
+            let parse_data_codes = [2i64, 3, 4, 6];
+            let agree = match m["result"].as_str() {
+                Some("ok") => !parse_data_codes.contains(&o.ret_code),
+                Some(_) => m["code"].as_i64() == Some(o.ret_code) && o.data == prev,
+                None => false,
+            };
+            if !agree { rep.disagree(json!({"op": "parse_data", "version": v, "shape": format!("{shape:?}"), "request": req, "model": m, "implementation": outcome_brief(&o)})); }
+            // direct oracle (semver crate as the independent reading of "older than the minimal version")
+            if let Some(env) = &real_env {
+                let older = env.versions.interpreter_version < min;
+                if older {
+                    let prev_shape = o.data == prev && o.next_peer_pks.is_empty() && decode_requests(&o.call_requests).map(|r| r.is_empty()).unwrap_or(false);
+                    if !(o.ret_code == unsupported_code && o.error_message.contains("minimum") && prev_shape) {
+                        rep.oracle_fail(json!({"why": format!("current data of version {v} (< {min}) was not rejected with the unsupported-version error and prev data"),
+                            "version": v, "cur_hex": hex(&cur), "prev_hex": hex(&prev), "outcome": outcome_brief(&o)}));
+                    }
+                } else if o.ret_code == unsupported_code {
+                    rep.oracle_fail(json!({"why": format!("current data of supported version {v} (>= {min}) was rejected for its version"),
+                        "version": v, "cur_hex": hex(&cur), "prev_hex": hex(&prev), "outcome": outcome_brief(&o)}));
+                }
+            }
+        }}
+    }
+}
